@@ -5,6 +5,7 @@
    [now] is the code as it is in /repo; [before_fix] is the code before the two repairs
    this check led to (commits 46827e5, 76627f6) and appears only in the refuted statements. *)
 From PV Require Import C12.Spec C12.Codec C12.Proofs C12.ProofsEnv C12.ProofsLink C12.ProofsTotal.
+From PV Require Import C12.PyGen Gen.C12_Tables C12.ProofsGen.
 
 (* ---- cmdline() *)
 
@@ -357,3 +358,52 @@ Theorem C12_name_extension_before_fix : forall r,
   fe_name before_fix (view_proc r) = Val (spec_name r).
 Proof. exact name_spec_before_fix. Qed.
 Print Assumptions C12_name_extension_before_fix.
+
+(* ---- source translation (round 2): [gen_cmdline] / [gen_name] (Gen/C12_Tables.v) are produced on every run by
+   props/_c12_gen.py from the CURRENT source of _pslinux.Process.cmdline and psutil.Process.name; [run_cmdline] /
+   [run_name] are the interpreters of C12/PyGen.v *)
+
+(* the body of cmdline() on every byte string as the file and either answer of _raise_if_zombie():
+   the empty file is the zombie test, any other one goes through the model's separator rule *)
+Theorem C12_gen_cmdline_split : forall file zombie,
+  run_cmdline gen_cmdline file zombie =
+  match file with
+  | [] => if zombie then Exc ZombieProcess else Val []
+  | _ => Val (cmdline_split file)
+  end.
+Proof. exact gen_cmdline_split. Qed.
+Print Assumptions C12_gen_cmdline_split.
+
+(* ... which is the model's accessor (read with newline="", configuration [now]) on every kernel view whose file is readable *)
+Theorem C12_gen_cmdline_correct : forall v file,
+  v_cmdline v = FData file ->
+  run_cmdline gen_cmdline file (is_zombie v) = pl_cmdline now v.
+Proof. exact gen_cmdline_correct. Qed.
+Print Assumptions C12_gen_cmdline_correct.
+
+(* the body of name() for every kernel view and every remembered self._name: the model's answer, which is also
+   what is stored; exceptions and their order (name first, cmdline only behind the 15-byte guard) as in the model *)
+Theorem C12_gen_name_correct : forall v stored,
+  run_name gen_name stored (pl_name v) (pl_cmdline now v) =
+  omap (fun n => (n, Some n)) (fe_name now v).
+Proof. exact gen_name_correct. Qed.
+Print Assumptions C12_gen_name_correct.
+
+(* ... as the step of a history of calls on one object (Model.fe_name_st): answer and memory after the call *)
+Theorem C12_gen_name_step : forall v st,
+  match run_name gen_name (s_name st) (pl_name v) (pl_cmdline now v) with
+  | Val (n, m) => fst (fe_name_st now st v) = Val n /\ s_name (snd (fe_name_st now st v)) = m
+  | Exc e => fst (fe_name_st now st v) = Exc e /\ snd (fe_name_st now st v) = st
+  | OutOfModel => fst (fe_name_st now st v) = OutOfModel
+  end.
+Proof. exact gen_name_step. Qed.
+Print Assumptions C12_gen_name_step.
+
+(* the translated name() composed with the translated cmdline(): both bodies from the source, for every view
+   whose cmdline file is readable *)
+Theorem C12_gen_name_over_gen_cmdline : forall v file stored,
+  v_cmdline v = FData file ->
+  run_name gen_name stored (pl_name v) (run_cmdline gen_cmdline file (is_zombie v)) =
+  omap (fun n => (n, Some n)) (fe_name now v).
+Proof. exact gen_name_over_gen_cmdline. Qed.
+Print Assumptions C12_gen_name_over_gen_cmdline.
